@@ -87,6 +87,16 @@ def direct_self_writes(fn):
                                 # BindingMode(Yes(<pin>, Mut), <mutability>) is a `ref mut` binding
                                 if _is_ref_mut(b.get("mode", "")):
                                     out.setdefault(f["name"], []).append(n)
+                else:
+                    # let Some(ref mut x) = self.field
+                    f = root_field(init)
+                    if f and any(_is_ref_mut(b.get("mode", "")) for b in walk_k(n["pat"], "Binding")):
+                        out.setdefault(f, []).append(n)
+        elif k == "Match":
+            # match self.field { Some(ref mut x) => .. }
+            f = root_field(n["scrut"])
+            if f and any(_is_ref_mut(b.get("mode", "")) for a in n.get("arms", []) for b in walk_k(a["pat"], "Binding")):
+                out.setdefault(f, []).append(n)
     return out
 
 
@@ -1076,7 +1086,8 @@ def r_pwd(ctx, rep):
                     ev = _arm_event_variant(arm, em["wrapped"])
                     g = arm["guard"]
                     extra = [b for b in walk_k(g, "Binary") if b["op"] in ("&&", "||")]
-                    if ev == "Start" and not extra and always_leaves(arm["body"], set()):
+                    from .kit import arm_body
+                    if ev == "Start" and not extra and always_leaves(arm_body(arm), set()):
                         rep.holds("R-PWD", key, loc(arm), "any <manifest:encryption-data> start returns OdsError::Password")
                     else:
                         rep.violation("R-PWD", key, loc(arm), "the encryption-data arm must fire on every Start event of that element and return Password (event %s, extra guard terms %d)" % (ev, len(extra)))
@@ -1085,10 +1096,14 @@ def r_pwd(ctx, rep):
         # the scan must be reached on every path: no success return before the scan loop
         key2 = "ods::check_for_password_protected|R-PWD|scan-reached"
         loops = list(walk_k(fn.body, "Loop"))
-        first_loop_line = min((l["span"]["l"] for l in loops), default=None)
         early = []
-        for r, anc in walk_anc(fn.body):
-            if r.get("k") == "Ret" and first_loop_line and r["span"]["l"] < first_loop_line:
+        seen_loop = False
+        for r, anc in walk_anc(fn.body):       # pre-order = source order (a helper inlined at its call site included)
+            if r.get("k") == "Loop":
+                seen_loop = True
+            if r.get("k") == "Ret" and loops and not seen_loop:
+                if any(a.get("k") == "Match" and a.get("src") == "TryDesugar" for a in anc):
+                    continue        # the error return of a `?`
                 if not any((path_def(x) or "").endswith("Result::Err") for x in walk_k(r, "Path")):
                     early.append(r)
         if loops and not early:
@@ -1408,23 +1423,29 @@ def r_tbl(ctx, rep):
         rep.anchor_missing("R-TBL", "xlsx::Xlsx::read_table_metadata")
         return
     n = 0
-    for i in walk_k(fn.body, "If"):
-        c = unwrap(i["cond"])
-        if c.get("k") != "Binary" or c["op"] != "!=" or lit_value(c["r"]) != 0:
+    # adjustments of the data range by a count field: `dims.start.0 += <x>.header_row_count`, `dims.end.0 -= <x>.totals_row_count`,
+    # with or without an enclosing `if <count> != 0`
+    for a, anc in walk_anc(fn.body):
+        if a.get("k") != "AssignOp":
             continue
-        g = field_chain(c["l"])
-        if not g or not g[1]:
+        l, r = field_chain(a["l"]), field_chain(a["r"])
+        if not l or not r or not r[1] or l[1][-2:] not in (["start", "0"], ["end", "0"]):
             continue
-        for a in walk_k(i["then"], "AssignOp"):
-            r = field_chain(a["r"])
-            if r is None or not r[1]:
-                continue
-            n += 1
-            key = "xlsx::Xlsx::read_table_metadata|R-TBL|%s" % g[1][-1]
-            if r == g:
-                rep.holds("R-TBL", key, loc(a), "the block guarded by `%s != 0` adjusts the range by %s" % (g[1][-1], r[1][-1]))
-            else:
-                rep.violation("R-TBL", key, loc(a), "read_table_metadata: the block guarded by `%s != 0` adjusts the table's data range by `%s` instead of `%s`: a table with a totals row but a different (or no) header row count keeps its totals row in the data range" % (g[1][-1], r[1][-1], g[1][-1]))
+        n += 1
+        key = "xlsx::Xlsx::read_table_metadata|R-TBL|%s" % r[1][-1]
+        guard = None
+        for i in anc:
+            if i.get("k") == "If" and any(x is a for x in walk(i["then"])):
+                c = unwrap(i["cond"])
+                if c.get("k") == "Binary" and c["op"] in ("!=", ">") and lit_value(c["r"]) == 0 and field_chain(c["l"]) and field_chain(c["l"])[1]:
+                    guard = field_chain(c["l"])
+        want = "header" if l[1][-2] == "start" else "totals"
+        if guard is not None and guard != r:
+            rep.violation("R-TBL", key, loc(a), "read_table_metadata: the block guarded by `%s != 0` adjusts the table's data range by `%s` instead of `%s`: a table with a totals row but a different (or no) header row count keeps its totals row in the data range" % (guard[1][-1], r[1][-1], guard[1][-1]))
+        elif want not in r[1][-1] or a.get("op") not in (("+", "+=") if want == "header" else ("-", "-=")):
+            rep.violation("R-TBL", key, loc(a), "read_table_metadata adjusts the %s row of the table's range with `%s %s`: header rows are taken off the top (start.0 += header count), totals rows off the bottom (end.0 -= totals count)" % (l[1][-2], a.get("op"), r[1][-1]))
+        else:
+            rep.holds("R-TBL", key, loc(a), "%s.0 %s %s%s" % (l[1][-2], a.get("op"), r[1][-1], (" under `%s != 0`" % guard[1][-1]) if guard else ""))
     if n < 2:
         rep.anchor_missing("R-TBL", "guarded header/totals adjustments in read_table_metadata (found %d)" % n)
     # regions / tables are attributed to the sheet of the loop
@@ -1447,11 +1468,11 @@ def r_tbl(ctx, rep):
             for p in walk_k(l, "MethodCall"):
                 if p["name"] == "push":
                     t = unwrap(p["args"][0])
-                    if t.get("k") == "Tup":
-                        for pos, e in enumerate(t["es"][:2]):
-                            for q in walk_k(e, "Path"):
-                                if q.get("res", {}).get("lid") in binds:
-                                    ok = True
+                    parts = t["es"][:2] if t.get("k") == "Tup" else ([f["e"] for f in t.get("fields", [])] if t.get("k") == "Struct" else [])
+                    for e in parts:
+                        for q in walk_k(e, "Path"):
+                            if q.get("res", {}).get("lid") in binds:
+                                ok = True
         if ok:
             rep.holds("R-TBL", key, loc(f.raw), "each %s is pushed with the sheet name bound by the enclosing loop over self.sheets" % what)
         else:
